@@ -590,7 +590,7 @@ class Document:
     """Strict reader. `sections` keeps every cross-reference section newest first
     with the offsets needed by the validator."""
 
-    def __init__(self, data, password=None, strict=True):
+    def __init__(self, data, password=None, strict=True, decrypt=True):
         self.data = data
         self.strict = strict
         self.xref = {}          # num -> XrefEntry (newest wins)
@@ -602,7 +602,8 @@ class Document:
         self.notes = []
         self._read_header()
         self._read_xref_chain()
-        self._setup_encryption(password)
+        if decrypt:
+            self._setup_encryption(password)
 
     # -- header / startxref
     def _read_header(self):
